@@ -323,6 +323,9 @@ func (ft *funcTrans) instrMods(in ssa.Instruction, li *loopInfo) {
 			return
 		}
 		c := ft.calleeContract(com)
+		if (c == nil || !c.HasAssigns) && callee != nil && ft.p.writesOnlyFresh(callee) {
+			return
+		}
 		if c == nil || !c.HasAssigns {
 			li.modAll = true
 			return
